@@ -1,9 +1,37 @@
 (** C04: from source text to the tree - the lexer reads back a space-separated rendering of the tokens. *)
 From Coq Require Import String Ascii.
 From Cel.Model Require Import Surface.
-From Cel.Proofs Require Import CompareProofs NumericProofs DurationRoundtrip ParserRoundtrip ParserFuel.
-From Coq Require Import Lia Arith.
+From Cel.Proofs Require Import CompareProofs NumericProofs LiteralProofs DurationRoundtrip ParserRoundtrip ParserFuel.
+From Coq Require Import Lia Arith ZArith ZifyBool ZifyNat ZifyN.
+Ltac Zify.zify_post_hook ::= Z.div_mod_to_equations.
 Open Scope nat_scope.
+
+(** a one-quote literal body the scanner accepts: escape sequences and characters other than
+    the quote, the backslash and line breaks *)
+Fixpoint body_ok (fuel : nat) (q : N) (s : str) : bool :=
+  match fuel with
+  | O => false
+  | S f =>
+      match s with
+      | [] => true
+      | c :: r =>
+          if (c =? q)%N then false
+          else if ((c =? 10) || (c =? 13))%N then false
+          else if (c =? 92)%N then
+            match esc_len r with Some k => body_ok f q (skipn k r) | None => false end
+          else body_ok f q r
+      end
+  end.
+
+Definition quoted_okb (t : str) : bool :=
+  match t with
+  | q :: r => ((q =? 34) || (q =? 39))%N &&
+              match rev r with
+              | q2 :: rb => (q2 =? q)%N && body_ok (S (length rb)) q (rev rb)
+              | [] => false
+              end
+  | [] => false
+  end.
 
 (** ** A text rendering of the tokens: every token followed by one space *)
 Definition tok_text (t : tk) : str :=
@@ -14,7 +42,7 @@ Definition tok_text (t : tk) : str :=
   | TIdent x => x
   | TDot => $"." | TLBracket => $"[" | TRBracket => $"]" | TLBrace => $"{" | TRBrace => $"}" | TComma => $","
   | TTrue => $"true" | TFalse => $"false" | TNull => $"null"
-  | TInt t => t | TUint t => t
+  | TInt t => t | TUint t => t | TString t => t | TBytes t => t
   | _ => []
   end.
 
@@ -37,6 +65,8 @@ Definition simple_tok (t : tk) : bool :=
                | c :: rd => (c =? ch "u")%N && all_digits (rev rd) && match rd with [] => false | _ => true end
                | [] => false
                end
+  | TString t => quoted_okb t
+  | TBytes t => match t with p :: t' => ((p =? ch "b") || (p =? ch "B"))%N && quoted_okb t' | [] => false end
   | _ => false
   end.
 
@@ -173,11 +203,215 @@ Proof.
   - destruct rd; [discriminate|]. cbn [rev]. intros H. apply app_eq_nil in H as [_ H]. discriminate.
 Qed.
 
+Arguments N.add : simpl never.
+Arguments N.div : simpl never.
+Arguments N.modulo : simpl never.
+
+Lemma esc_len_app r x k : esc_len r = Some k -> esc_len (r ++ x) = Some k /\ k <= length r.
+Proof.
+  intros H. destruct r as [|c r]; [discriminate|]. cbn [esc_len app length] in *.
+  match type of H with (if ?b then _ else _) = _ => destruct b end; [injection H as <-; split; [reflexivity|lia]|].
+  match type of H with (if ?b then _ else _) = _ => destruct b end.
+  { destruct r as [|h1 [|h2 r]]; try discriminate. cbn [app length]. destruct (is_hex h1 && is_hex h2); [|discriminate].
+    injection H as <-. split; [reflexivity|lia]. }
+  match type of H with (if ?b then _ else _) = _ => destruct b end.
+  { destruct r as [|h1 [|h2 [|h3 [|h4 r]]]]; try discriminate. cbn [app length].
+    destruct (is_hex h1 && is_hex h2 && is_hex h3 && is_hex h4); [|discriminate]. injection H as <-. split; [reflexivity|lia]. }
+  match type of H with (if ?b then _ else _) = _ => destruct b end.
+  { destruct r as [|h1 [|h2 [|h3 [|h4 [|h5 [|h6 [|h7 [|h8 r]]]]]]]]; try discriminate. cbn [app length].
+    match type of H with (if ?b then _ else _) = _ => destruct b end; [|discriminate]. injection H as <-. split; [reflexivity|lia]. }
+  match type of H with (if ?b then _ else _) = _ => destruct b end; [|discriminate].
+  destruct r as [|o1 [|o2 r]]; try discriminate. cbn [app length]. destruct (is_oct o1 && is_oct o2); [|discriminate].
+  injection H as <-. split; [reflexivity|lia].
+Qed.
+
+Lemma scan_short_ok f : forall q body n rest f', body_ok f q body = true -> f <= f' ->
+  scan_short (S f') q false (body ++ q :: rest) n = Some (S (length body + n)).
+Proof.
+  induction f as [|f IH]; intros q body n rest f' Hb Hf; [discriminate|].
+  destruct body as [|c r].
+  - cbn [app scan_short length]. now rewrite N.eqb_refl.
+  - cbn [body_ok] in Hb. cbn [app scan_short].
+    destruct (c =? q)%N; [discriminate|]. destruct ((c =? 10) || (c =? 13))%N; [discriminate|].
+    destruct f' as [|f']; [lia|].
+    destruct (c =? 92)%N; cbn [negb andb].
+    + destruct (esc_len r) as [k|] eqn:E; [|discriminate].
+      destruct (esc_len_app r (q :: rest) k E) as [E' Hk]. rewrite E'.
+      rewrite skipn_app. replace (k - length r) with 0 by lia. cbn [skipn].
+      rewrite (IH q (skipn k r) (S (k + n)) rest f' Hb ltac:(lia)). rewrite skipn_length. cbn [length]. f_equal. lia.
+    + rewrite (IH q r (S n) rest f' Hb ltac:(lia)). cbn [length]. f_equal. lia.
+Qed.
+
+Lemma body_ok_mono f : forall q s f', body_ok f q s = true -> f <= f' -> body_ok f' q s = true.
+Proof.
+  induction f as [|f IH]; intros q s f' H Hf; [discriminate|]. destruct f' as [|f']; [lia|].
+  cbn [body_ok] in *. destruct s as [|c r]; [reflexivity|].
+  destruct (c =? q)%N; [discriminate|]. destruct ((c =? 10) || (c =? 13))%N; [discriminate|].
+  destruct (c =? 92)%N.
+  - destruct (esc_len r); [|discriminate]. apply IH; [exact H|lia].
+  - apply IH; [exact H|lia].
+Qed.
+
+(** the literal  q body q  followed by a space is one STRING token *)
+Lemma string_len_lit q body rest : (q = 34 \/ q = 39)%N -> body_ok (S (length body)) q body = true ->
+  string_len false (q :: body ++ q :: 32%N :: rest) = Some (S (S (length body))).
+Proof.
+  intros Hq Hb.
+  assert (Hqq : ((q =? 34) || (q =? 39))%N = true) by (destruct Hq as [-> | ->]; reflexivity).
+  unfold string_len. rewrite Hqq.
+  rewrite (scan_short_ok (S (length body)) q body 0 (32%N :: rest) _ Hb)
+    by (cbn [length]; rewrite app_length; cbn [length]; lia).
+  cbn [option_map]. rewrite Nat.add_0_r.
+  assert (L : match body ++ q :: 32%N :: rest with
+              | q2 :: q3 :: r3 => if ((q2 =? q) && (q3 =? q))%N
+                                  then option_map (fun k => 3 + k) (scan_long (S (length (q :: body ++ q :: 32%N :: rest))) q false r3 0)
+                                  else None
+              | _ => None end = None).
+  { destruct body as [|c r].
+    - cbn [app]. rewrite N.eqb_refl. replace (32 =? q)%N with false by (destruct Hq as [-> | ->]; reflexivity). reflexivity.
+    - cbn [app]. cbn [body_ok] in Hb. destruct (c =? q)%N; [discriminate|].
+      destruct (r ++ q :: 32%N :: rest); reflexivity. }
+  rewrite L. reflexivity.
+Qed.
+
+Lemma take_lit (t : str) rest : firstn (length t) (t ++ 32%N :: rest) = t /\ skipn (length t) (t ++ 32%N :: rest) = 32%N :: rest.
+Proof.
+  rewrite firstn_app, skipn_app, firstn_all, skipn_all, Nat.sub_diag. cbn [firstn skipn app]. now rewrite app_nil_r.
+Qed.
+
+Lemma lex_string q body rest : (q = 34 \/ q = 39)%N -> body_ok (S (length body)) q body = true ->
+  lex_one ((q :: body ++ [q]) ++ 32%N :: rest) = Some (Some (TString (q :: body ++ [q])), 32%N :: rest).
+Proof.
+  intros Hq Hb. pose proof (string_len_lit q body rest Hq Hb) as SL.
+  assert (Hnb : ((q =? ch "b") || (q =? ch "B"))%N = false) by (destruct Hq as [-> | ->]; reflexivity).
+  assert (Hnr : ((q =? ch "r") || (q =? ch "R"))%N = false) by (destruct Hq as [-> | ->]; reflexivity).
+  destruct (take_lit (q :: body ++ [q]) rest) as [T1 T2].
+  assert (Ln : length (q :: body ++ [q]) = S (S (length body))) by (cbn [length]; rewrite app_length; cbn [length]; lia).
+  rewrite Ln in T1, T2.
+  assert (Es : (q :: body ++ [q]) ++ 32%N :: rest = q :: body ++ q :: 32%N :: rest) by (cbn [app]; rewrite <- app_assoc; reflexivity).
+  rewrite Es in *. unfold lex_one, bytes_tok_len, string_tok_len. rewrite Hnb, Hnr, SL, T1, T2. reflexivity.
+Qed.
+
+Lemma lex_bytes p q body rest : (p = ch "b" \/ p = ch "B")%N -> (q = 34 \/ q = 39)%N ->
+  body_ok (S (length body)) q body = true ->
+  lex_one ((p :: q :: body ++ [q]) ++ 32%N :: rest) = Some (Some (TBytes (p :: q :: body ++ [q])), 32%N :: rest).
+Proof.
+  intros Hp Hq Hb. pose proof (string_len_lit q body rest Hq Hb) as SL.
+  assert (Hpb : ((p =? ch "b") || (p =? ch "B"))%N = true) by (destruct Hp as [-> | ->]; reflexivity).
+  assert (Hnr : ((q =? ch "r") || (q =? ch "R"))%N = false) by (destruct Hq as [-> | ->]; reflexivity).
+  destruct (take_lit (p :: q :: body ++ [q]) rest) as [T1 T2].
+  assert (Ln : length (p :: q :: body ++ [q]) = S (S (S (length body)))) by (cbn [length]; rewrite app_length; cbn [length]; lia).
+  rewrite Ln in T1, T2.
+  assert (Es : (p :: q :: body ++ [q]) ++ 32%N :: rest = p :: q :: body ++ q :: 32%N :: rest) by (cbn [app]; rewrite <- app_assoc; reflexivity).
+  rewrite Es in *. unfold lex_one, bytes_tok_len, string_tok_len. rewrite Hpb, Hnr, SL. cbn [option_map]. rewrite T1, T2. reflexivity.
+Qed.
+
+(** every spelling [render] produces is such a body *)
+Lemma simple_esc c e r : simple_for c = Some e -> esc_len (e :: r) = Some 1.
+Proof.
+  unfold simple_for.
+  repeat match goal with
+         | |- context [(c =? ?k)%N] =>
+             let E := fresh in destruct (c =? k)%N eqn:E; [apply N.eqb_eq in E; subst; cbn|cbn [orb]]
+         end; try (intros [= <-]; reflexivity); discriminate.
+Qed.
+
+Lemma list2 {A} (l : list A) : length l = 2 -> exists a b, l = [a; b].
+Proof. destruct l as [|a [|b [|c l]]]; try discriminate. eauto. Qed.
+Lemma list3 {A} (l : list A) : length l = 3 -> exists a b c, l = [a; b; c].
+Proof. destruct l as [|a [|b [|c [|d l]]]]; try discriminate. eauto. Qed.
+Lemma list4 {A} (l : list A) : length l = 4 -> exists a b c d, l = [a; b; c; d].
+Proof. destruct l as [|a [|b [|c [|d [|e l]]]]]; try discriminate. eauto 6. Qed.
+Lemma list8 {A} (l : list A) : length l = 8 -> exists a b c d e f g h, l = [a; b; c; d; e; f; g; h].
+Proof. destruct l as [|a [|b [|c [|d [|e [|f [|g [|h [|i l]]]]]]]]]; try discriminate. eauto 10. Qed.
+
+Lemma hexdigit_hex u d : is_hex (hexdigit u (d mod 16)) = true.
+Proof. apply hexdigit_ok. apply N.mod_lt. discriminate. Qed.
+
+Lemma esc_x x a b r : (x = 120 \/ x = 88)%N -> is_hex a = true -> is_hex b = true -> esc_len (x :: a :: b :: r) = Some 3.
+Proof. intros [-> | ->] Ha Hb; cbn; now rewrite Ha, Hb. Qed.
+Lemma esc_u a b c d r : is_hex a = true -> is_hex b = true -> is_hex c = true -> is_hex d = true ->
+  esc_len (117%N :: a :: b :: c :: d :: r) = Some 5.
+Proof. intros Ha Hb Hc Hd; cbn; now rewrite Ha, Hb, Hc, Hd. Qed.
+Lemma esc_U a b c d e g h i r : is_hex a = true -> is_hex b = true -> is_hex c = true -> is_hex d = true ->
+  is_hex e = true -> is_hex g = true -> is_hex h = true -> is_hex i = true ->
+  esc_len (85%N :: a :: b :: c :: d :: e :: g :: h :: i :: r) = Some 9.
+Proof. intros Ha Hb Hc Hd He Hg Hh Hi; cbn; now rewrite Ha, Hb, Hc, Hd, He, Hg, Hh, Hi. Qed.
+Lemma esc_o o1 o2 o3 r : (48 <= o1 <= 51)%N -> is_oct o2 = true -> is_oct o3 = true -> esc_len (o1 :: o2 :: o3 :: r) = Some 3.
+Proof.
+  intros H1 H2 H3. assert (E : (o1 = 48 \/ o1 = 49 \/ o1 = 50 \/ o1 = 51)%N) by lia.
+  destruct E as [->|[->|[->| ->]]]; cbn; now rewrite H2, H3.
+Qed.
+
+Lemma render1_ok q c k a : (q = 34 \/ q = 39)%N -> render1 q c k = Some a ->
+  forall f r, body_ok f q r = true -> body_ok (S f) q (a ++ r) = true.
+Proof.
+  intros Hq H f r Hr.
+  assert (Q1 : (92 =? q)%N = false) by (destruct Hq as [-> | ->]; reflexivity).
+  destruct k; cbn [render1] in H.
+  - destruct ((c =? q) || (c =? 92) || (c =? 10) || (c =? 13))%N eqn:E; [discriminate|]. injection H as <-.
+    apply Bool.orb_false_iff in E as [E E4]. apply Bool.orb_false_iff in E as [E E3]. apply Bool.orb_false_iff in E as [E1 E2].
+    cbn [app body_ok]. now rewrite E1, E3, E4, E2.
+  - destruct (simple_for c) as [e|] eqn:E; [|discriminate]. injection H as <-.
+    cbn [app body_ok]. rewrite Q1. change ((92 =? 10) || (92 =? 13))%N with false. change (92 =? 92)%N with true. cbv iota. rewrite (simple_esc c e r E). exact Hr.
+  - destruct (c <? 256)%N eqn:E; [|discriminate]. injection H as <-.
+    cbn [hexd app body_ok]. rewrite Q1. change ((92 =? 10) || (92 =? 13))%N with false. change (92 =? 92)%N with true. cbv iota.
+    rewrite esc_x; [exact Hr|now left|apply hexdigit_hex|apply hexdigit_hex].
+  - destruct (c <? 256)%N eqn:E; [|discriminate]. injection H as <-.
+    cbn [hexd app body_ok]. rewrite Q1. change ((92 =? 10) || (92 =? 13))%N with false. change (92 =? 92)%N with true. cbv iota.
+    rewrite esc_x; [exact Hr|now right|apply hexdigit_hex|apply hexdigit_hex].
+  - destruct (c <? 256)%N eqn:E; [|discriminate]. injection H as <-. apply N.ltb_lt in E.
+    cbn [octd app body_ok]. rewrite Q1. change ((92 =? 10) || (92 =? 13))%N with false. change (92 =? 92)%N with true. cbv iota.
+    rewrite esc_o; [exact Hr| | |]; unfold is_oct; lia.
+  - destruct (c <? 65536)%N eqn:E; [|discriminate]. injection H as <-.
+    cbn [hexd app body_ok]. rewrite Q1. change ((92 =? 10) || (92 =? 13))%N with false. change (92 =? 92)%N with true. cbv iota.
+    rewrite esc_u; [exact Hr| | | |]; apply hexdigit_hex.
+  - destruct (c <? 4294967296)%N eqn:E; [|discriminate]. injection H as <-.
+    cbn [hexd app body_ok]. rewrite Q1. change ((92 =? 10) || (92 =? 13))%N with false. change (92 =? 92)%N with true. cbv iota.
+    rewrite esc_U; [exact Hr| | | | | | | |]; apply hexdigit_hex.
+Qed.
+
+Lemma render_units q : (q = 34 \/ q = 39)%N -> forall s ks body, render q s ks = Some body ->
+  body_ok (S (length s)) q body = true /\ length s <= length body.
+Proof.
+  intros Hq. induction s as [|c s IH]; intros ks body H; destruct ks as [|k ks]; cbn [render] in H; try discriminate.
+  - injection H as <-. split; [reflexivity|cbn; lia].
+  - destruct (render1 q c k) as [a|] eqn:E1; [|discriminate]. destruct (render q s ks) as [b|] eqn:E2; [|discriminate].
+    injection H as <-. destruct (IH ks b E2) as [Hb Hl]. split.
+    + cbn [length]. now apply (render1_ok q c k a Hq E1).
+    + rewrite app_length. cbn [length]. assert (1 <= length a); [|lia].
+      destruct k; cbn [render1] in E1;
+        repeat match type of E1 with (if ?b then _ else _) = _ => destruct b; [|discriminate] | (if ?b then _ else _) = _ => destruct b; [discriminate|] end;
+        try (destruct (simple_for c); [|discriminate]); injection E1 as <-; cbn [length]; lia.
+Qed.
+
+Lemma render_body_ok q s ks body : (q = 34 \/ q = 39)%N -> render q s ks = Some body ->
+  body_ok (S (length body)) q body = true.
+Proof.
+  intros Hq H. destruct (render_units q Hq s ks body H) as [Hb Hl].
+  apply (body_ok_mono _ q body _ Hb). lia.
+Qed.
+
+Lemma quoted_shape t : quoted_okb t = true ->
+  exists q body, t = q :: body ++ [q] /\ (q = 34 \/ q = 39)%N /\ body_ok (S (length body)) q body = true.
+Proof.
+  unfold quoted_okb. destruct t as [|q r]; [discriminate|]. intros H. apply andb_prop in H as [Hq H].
+  destruct (rev r) as [|q2 rb] eqn:E; [discriminate|]. apply andb_prop in H as [H2 Hb]. apply N.eqb_eq in H2. subst q2.
+  exists q, (rev rb). split; [|split].
+  - f_equal. rewrite <- (rev_involutive r), E. reflexivity.
+  - apply Bool.orb_true_iff in Hq as [Hq|Hq]; apply N.eqb_eq in Hq; auto.
+  - now rewrite rev_length.
+Qed.
+
 Lemma lex_simple t rest : simple_tok t = true -> lex_one (tok_text t ++ 32%N :: rest) = Some (Some t, 32%N :: rest).
 Proof.
   destruct t; try discriminate; intros H; try reflexivity.
   - cbn [simple_tok tok_text] in *. apply andb_prop in H as [H1 H2]. apply lex_int; [exact H1|]. now destruct text0.
   - destruct (uint_text _ H) as (ds & -> & Hd & Hne). cbn [tok_text]. now apply lex_uint.
+  - cbn [simple_tok tok_text] in *. destruct (quoted_shape _ H) as (q & body & -> & Hq & Hb). now apply lex_string.
+  - cbn [simple_tok tok_text] in *. destruct text0 as [|p t']; [discriminate|]. apply andb_prop in H as [Hp H].
+    destruct (quoted_shape _ H) as (q & body & -> & Hq & Hb).
+    apply lex_bytes; auto. apply Bool.orb_true_iff in Hp as [Hp|Hp]; apply N.eqb_eq in Hp; auto.
   - now apply lex_ident.
 Qed.
 
@@ -198,6 +432,10 @@ Proof.
   - destruct (uint_text _ H) as (ds & -> & Hd & Hne). cbn [tok_text]. destruct ds as [|c r]; [congruence|].
     exists c, (r ++ [ch "u"]). split; [reflexivity|]. cbn [all_digits forallb] in Hd. apply andb_prop in Hd as [Hd _].
     unfold is_digit, is_ws in *. lia.
+  - cbn [simple_tok tok_text] in *. destruct (quoted_shape _ H) as (q & body & -> & Hq & Hb).
+    exists q, (body ++ [q]). split; [reflexivity|]. destruct Hq as [-> | ->]; reflexivity.
+  - cbn [simple_tok tok_text] in *. destruct text0 as [|p t']; [discriminate|]. apply andb_prop in H as [Hp H].
+    exists p, t'. split; [reflexivity|]. apply Bool.orb_true_iff in Hp as [Hp|Hp]; apply N.eqb_eq in Hp; subst p; reflexivity.
   - cbn [tok_text]. unfold simple_tok, ident_okb in H. destruct text0 as [|c r]; [discriminate|].
     exists c, r. split; [reflexivity|]. repeat (apply andb_prop in H as [H ?]).
     unfold is_ident_start, is_letter, is_ws in *. lia.
@@ -241,6 +479,8 @@ Fixpoint ids_ok (t : st) : Prop :=
   let all := (fix go (l : list st) : Prop := match l with [] => True | r :: l' => ids_ok r /\ go l' end) in
   match t with
   | SId x => ident_okb x = true
+  | SLit (LStr t _) => simple_tok (TString t) = true
+  | SLit (LBytes t _) => simple_tok (TBytes t) = true
   | SLit _ => True
   | SSel a f => ids_ok a /\ ident_okb f = true
   | SIdx a i => ids_ok a /\ ids_ok i
@@ -285,9 +525,9 @@ Proof.
   destruct l; [constructor|]. apply simple_cons; [reflexivity|exact IH].
 Qed.
 
-Lemma simple_lit l : wf_lit l = true -> simple_tok (lit_tk l) = true.
+Lemma simple_lit l : wf_lit l = true -> ids_ok (SLit l) -> simple_tok (lit_tk l) = true.
 Proof.
-  destruct l as [z|z|[]|]; cbn [wf_lit lit_tk simple_tok]; intros W; try reflexivity.
+  destruct l as [z|z|[]| |t s|t b]; cbn [wf_lit lit_tk ids_ok]; intros W I; try reflexivity; try exact I; cbn [simple_tok].
   - apply andb_prop in W as [W0 _]. destruct (nat_digits_ok z ltac:(lia)) as (_ & H2 & H3).
     rewrite H2. now destruct (nat_digits z).
   - assert (Hz : (0 <= z)%Z) by (unfold in_u64 in W; lia).
@@ -353,4 +593,39 @@ Theorem compile_roundtrip t : wf_st t -> ids_ok t -> compile (text (raw t)) = CE
 Proof.
   intros W I. unfold compile. rewrite (lex_roundtrip (raw t) (raw_simple t W I)).
   now apply parse_tokens_roundtrip.
+Qed.
+
+(** ** C12: a spelled string / bytes literal compiles to the literal value *)
+Lemma quoted_lit q body : (q = 34 \/ q = 39)%N -> body_ok (S (length body)) q body = true ->
+  quoted_okb (q :: body ++ [q]) = true.
+Proof.
+  intros Hq Hb. unfold quoted_okb. rewrite rev_app_distr. cbn [rev app].
+  rewrite N.eqb_refl, rev_length, rev_involutive, Hb.
+  destruct Hq as [-> | ->]; reflexivity.
+Qed.
+
+Theorem string_literal_compiles q s ks body :
+  (q = 34 \/ q = 39)%N -> forallb is_scalar s = true -> render q s ks = Some body ->
+  compile (text [TString (q :: body ++ [q])]) = CExpr (ELit (VStr s)).
+Proof.
+  intros Hq Hs Hr.
+  pose proof (string_roundtrip_short q s ks body Hq Hs Hr) as D.
+  apply (compile_roundtrip (SLit (LStr (q :: body ++ [q]) s))).
+  - cbn [wf_st wf_lit]. rewrite D. now apply str_eqb_eq.
+  - cbn [ids_ok simple_tok]. apply quoted_lit; [exact Hq|]. now apply (render_body_ok q s ks).
+Qed.
+
+Theorem bytes_literal_compiles p q s ks body :
+  (p = ch "b" \/ p = ch "B")%N -> (q = 34 \/ q = 39)%N -> forallb is_scalar s = true -> render q s ks = Some body ->
+  exists us, compile (text [TBytes (p :: q :: body ++ [q])]) = CExpr (ELit (VBytes (flat_map unit_bytes us))) /\
+             map unit_cp us = s.
+Proof.
+  intros Hp Hq Hs Hr.
+  destruct (bytes_decode_short p q s ks body Hp Hq Hs Hr) as (us & D & Hu).
+  exists us. split; [|exact Hu].
+  apply (compile_roundtrip (SLit (LBytes (p :: q :: body ++ [q]) (flat_map unit_bytes us)))).
+  - cbn [wf_st wf_lit]. rewrite D. now apply str_eqb_eq.
+  - cbn [ids_ok simple_tok].
+    replace ((p =? ch "b") || (p =? ch "B"))%N with true by (destruct Hp as [-> | ->]; reflexivity).
+    apply quoted_lit; [exact Hq|]. now apply (render_body_ok q s ks).
 Qed.
